@@ -22,8 +22,9 @@ inductive Val where
   | bool (b : Bool)
   | name (s : Bytes)
   | arr (xs : List Val)
-  | other                 -- reals, strings, dictionaries: opaque
-  deriving Repr, BEq, Inhabited
+  | str                   -- a (non-empty) string: opaque, but subscriptable like a list
+  | other                 -- reals, dictionaries: opaque
+  deriving Repr, Inhabited
 
 abbrev Dict := List (Bytes × Val)
 
@@ -86,9 +87,15 @@ def eosOf (d : Dict) : Except IErr Bytes :=
   | some (.arr []) => .error .indexError
   | some (.arr (.name f :: _)) => .ok (if f = nA85 ∨ f = nASCII85Decode then [126, 62] else [69, 73])
   | some (.arr (_ :: _)) => .ok [69, 73]
+  | some .str => .ok [69, 73]
   | some _ => .error .typeError
 
 def componentsOf (cs : Bytes) : Option Nat := (inlineComponents.find? (fun p => p.1 == cs)).map (·.2)
+
+/-- `x is True`. -/
+def isPyTrue : Option Val → Bool
+  | some (.bool true) => true
+  | _ => false
 
 def posInt : Option Val → Option Int
   | some (.int n) => if n > 0 then some n else none
@@ -101,7 +108,7 @@ def inlineSize (d : Dict) : Option Nat :=
   | none =>
     let wh := (posInt (getAny d [kW, kWidth]), posInt (getAny d [kH, kHeight]))
     let bn : Option Int × Option Int :=
-      if getAny d [kIM, kImageMask] == some (.bool true) then (some 1, some 1)
+      if isPyTrue (getAny d [kIM, kImageMask]) then (some 1, some 1)
       else
         (posInt (getAny d [kBPC, kBitsPerComponent]),
          match getAny d [kCS, kColorSpace] with
@@ -140,7 +147,7 @@ structure LTFields where
   bits : Val
   colorspace : List (Option Val)
   imagemask : Option Val
-  deriving Repr, BEq
+  deriving Repr
 
 /-- `do_EI` (accept iff width and height are present) followed by `LTImage.__init__`. -/
 def doEI (d : Dict) : Option LTFields :=
@@ -161,7 +168,11 @@ def nDeviceCMYK : Bytes := [68, 101, 118, 105, 99, 101, 67, 77, 89, 75]
 def nG : Bytes := [71]
 def nRGB : Bytes := [82, 71, 66]
 
-def hasName (cs : List (Option Val)) (n : Bytes) : Bool := cs.any (fun v => v == some (.name n))
+def isName (n : Bytes) : Option Val → Bool
+  | some (.name s) => s == n
+  | _ => false
+
+def hasName (cs : List (Option Val)) (n : Bytes) : Bool := cs.any (isName n)
 
 /-- `LITERAL_DEVICE_RGB in image.colorspace or LITERAL_INLINE_DEVICE_RGB in …`, then the same for gray:
     membership anywhere in the list (so `[/Indexed /DeviceRGB …]` counts as RGB — open finding). -/
@@ -175,7 +186,7 @@ def csClass (cs : List (Option Val)) : Image.CS :=
     | _ => .other
 
 /-- `LITERAL_DEVICE_CMYK in image.colorspace`. -/
-def cmykMember (cs : List (Option Val)) : Bool := cs.any (fun v => v == some (.name nDeviceCMYK))
+def cmykMember (cs : List (Option Val)) : Bool := hasName cs nDeviceCMYK
 
 /-- The view `ImageWriter.export_image` takes of an LTImage with these fields (non-negative integer
     width, height, bits — anything else raises inside the writer and is outside the model). -/
